@@ -29,6 +29,7 @@ MSG_DEFAULT = {
     "gates": [],  # subset of ['save', 'ack']
     "save_fails": False,
     "body": "gated",  # gated | immediate
+    "unwind": None,  # 'gated': on cancellation the body awaits a gate before it finishes (slow clean-up)
     "labels": {},
 }
 
@@ -63,6 +64,10 @@ def msg_spec(**kw: Any) -> Dict[str, Any]:
     d = dict(MSG_DEFAULT)
     d.update(kw)
     return d
+
+
+def _tick() -> None:
+    """Harness clock tick (no effect on the code under test)."""
 
 
 def _virtual_time() -> float:
@@ -166,6 +171,11 @@ class RecvWorld(World):
         self.per: Dict[int, List[Tuple[Any, ...]]] = {i: [] for i in range(n)}
         self.max_inflight = 0
         self.max_unfinished = 0
+        self.body_open: List[int] = []
+        for t_us in sc.get("ticks", []):
+            # harness timers: instants at which untimed events may happen between the
+            # deadlines of the code's own timers
+            self.loop.call_at(t_us / 1_000_000, _tick)
 
         class ScriptedBroker(AsyncBroker):
             async def kick(self, message: Any) -> None:
@@ -293,6 +303,12 @@ class RecvWorld(World):
                 elif m["body"] == "gated":
                     await world.gate(("body", i))
             except BaseException as exc:
+                if m.get("unwind") == "gated" and not world.closed:
+                    world.emit("UNWIND", i)
+                    try:
+                        await world.gate(("unwind", i))
+                    except BaseException:
+                        pass
                 world.emit("END", i, "cancelled:" + type(exc).__name__)
                 raise
             return world._finish_body(i, NoResultError)
@@ -457,7 +473,16 @@ class RecvWorld(World):
         elif kind in ("STOP", "EOS"):
             if self.t_sd is None:
                 self.t_sd, self.sd_cause = self.loop._vt_us, kind.lower()
+        elif kind == "END":
+            if ev[1] in self.body_open:
+                self.body_open.remove(ev[1])
         elif kind == "START":
+            self.body_open.append(ev[1])
+            if self.A is not None and len(self.body_open) > self.A:
+                self.flag(
+                    "C03:over-admission-bodies",
+                    f"{len(self.body_open)} task functions executing at once {self.body_open} with max_async_tasks={self.A}",
+                )
             if ev[1] in self.started:
                 self.flag("C01:duplicate-execution", f"task function of message {ev[1]} invoked twice")
             self.started.append(ev[1])
@@ -521,6 +546,7 @@ class RecvWorld(World):
             tuple((i, tuple(l)) for i, l in self.per.items()),
             tuple(self.started),
             tuple(self.cb_open),
+            tuple(self.body_open),
             self.stop_requested,
             self.ret,
             self.bodies_fired if self.sc.get("max_body") is not None else None,
